@@ -149,6 +149,40 @@ def grouped_serialization(run, tier, seed):
                 # per-frame sets: iteration order inside an rdflib graph is not the insertion order
                 traces.append({"id": len(cases) - 1, "rows": terms.jrows_of_frames(frames), "mode": "set",
                                "exp": [terms.jitem(terms.norm_item(s)) for s in dict.fromkeys(s for g in nonempty for s in g)]})
+    # a graph/dataset larger than the default frame size, with the grouped flow given as an explicit flow object or inferred from the logical type
+    I = lambda s_: ("iri", s_)  # noqa: E731
+    for integ in ("generic", "rdflib"):
+        for quads in (False, True):
+            for how in ("explicit-flow-object", "logical-type"):
+                mk = lambda k, n_: [(I(f"http://e/s{k}-{j}"), I("http://e/p"), I(f"http://e/o{j % 7}")) + ((I(f"http://g/{k}"),) if quads else ()) for j in range(n_)]  # noqa: E731
+                groups = [mk(0, 2), mk(1, 300), mk(2, 2)]
+                cfg = impl.default_cfg(integ=integ, entry="stream_frames", sclass=("quad" if quads else "triple"),
+                                       ltype=(0 if how == "explicit-flow-object" else (4 if quads else 3)),
+                                       flow=(("datasets" if quads else "graphs") if how == "explicit-flow-object" else None),
+                                       preset=(4000, 150, 32), gen=False, star=False)
+                key = {"part": "grouped-serialization", "integ": integ, "universe": "large-sinks", "flow": how}
+                rp = {"cfg": cfg, "sink_sizes": [2, 300, 2]}
+                n += 1
+                try:
+                    stream = impl.make_stream(cfg)
+                    mod = __import__(f"pyjelly.integrations.{integ}.serialize", fromlist=["stream_frames"])
+                    out_ = io.BytesIO()
+                    for g_ in groups:
+                        data_ = impl.generic_sink(g_) if integ == "generic" else impl.rdflib_container(g_, dataset=quads)
+                        for fr in mod.stream_frames(stream, data_):
+                            impl.write_delimited(fr, out_)
+                    frames = wire.dec_delimited(out_.getvalue())
+                except Exception as ex:  # noqa: BLE001
+                    run.violation({"clause": "serializer-raised", **key}, f"{type(ex).__name__}: {ex}", rp)
+                    continue
+                counts = producer.denoting_per_frame(frames)
+                if counts != [2, 300, 2]:
+                    run.violation({"clause": "frames-vs-sinks", "leading_empty_sink_gets_options_only_frame": False, **key},
+                                  f"three sinks of 2, 300 and 2 statements written as frames holding {counts} statements", rp)
+                    continue
+                cases.append((key, rp, frames, groups, integ))
+                traces.append({"id": len(cases) - 1, "rows": terms.jrows_of_frames(frames), "mode": ("seq" if integ == "generic" else "set"),
+                               "exp": [terms.jitem(s_) for g_ in groups for s_ in g_]})
     verdicts = tlc.judge(traces)
     verdicts.pop("__stats__")
     for i, (key, rp, frames, nonempty, integ) in enumerate(cases):
